@@ -646,6 +646,17 @@ func readSourceEnv(w *World, root *ssa.Function, v ssa.Value, env *strEnv, depth
 			if x.Index == 0 && strings.HasPrefix(n, "strconv.") && len(t.Call.Args) >= 1 {
 				if s, ok := readSourceEnv(w, root, t.Call.Args[0], env, depth+1); ok {
 					s.conv = strings.TrimPrefix(n, "strconv.")
+					// ParseInt / ParseUint: a base other than 10 or a bit size below 64 is part of the conversion's name
+					if (s.conv == "ParseInt" || s.conv == "ParseUint") && len(t.Call.Args) == 3 {
+						if b, isK := intConst(t.Call.Args[1]); !isK || b != 10 {
+							s.conv += "/base" + itoa(int(b))
+						}
+						if bits, isK := intConst(t.Call.Args[2]); !isK {
+							s.conv += "/?bits"
+						} else if bits != 0 && bits != 64 {
+							s.conv += "/" + itoa(int(bits)) + "bits"
+						}
+					}
 					return s, true
 				}
 			}
